@@ -63,9 +63,25 @@ def check(case, ctx):
         else:
             fixed = maskfn(LOC)
     pmask = {"FLEX": fm.Mask.FLEX, "NONE": fm.Mask.NONE, "fixed": fixed}[mk]
+    # the consumer may declare another layout of the same geometry: values then travel by physical location
+    relayout = lambda a: a  # noqa: E731
+    cg, cshape = g, shape
+    if case.get("cgrid") and LOC is not None:
+        ccfg = case["cgrid"]
+        cg = hg.build(ccfg)
+        CLOC, cshape, _co = hg.ref(ccfg)
+        cshape = tuple(cshape)
+        index = {tuple(np.round(LOC[i], 9)): i for i in np.ndindex(*shape)}
+        src_idx = [index[tuple(np.round(CLOC[j], 9))] for j in np.ndindex(*cshape)]
+
+        def relayout(a):  # noqa: F811
+            a = np.asarray(a)
+            return np.array([a[i] for i in src_idx]).reshape(cshape)
+
+        ctx.event("consumer-layout-differs")
     link = hs.Link(
         fm.Info(time=hs.T0, grid=g, units=pu, mask=pmask),
-        [fm.Info(time=hs.T0, grid=g, units=cu)],
+        [fm.Info(time=hs.T0, grid=cg, units=cu)],
         chain=case["chain"],
     )
     link.connect()
@@ -194,11 +210,12 @@ def check(case, ctx):
             ctx.violation("units-label", f"pulled data labelled {getattr(r, 'units', None)}, consumer declared {cu!r}")
             return
         m = r.magnitude
-        if np.shape(m) != (1,) + tuple(shape):
-            ctx.violation("shape", f"pulled shape {np.shape(m)}, expected {(1,) + tuple(shape)}")
+        if np.shape(m) != (1,) + tuple(cshape):
+            ctx.violation("shape", f"pulled shape {np.shape(m)}, expected {(1,) + tuple(cshape)}")
             return
         cands = expected_at(t)
         ok = False
+        cands = [(tp, relayout(vals), relayout(msk)) for tp, vals, msk in cands]
         for (_tp, vals, msk) in cands:
             want = hu.convert(vals, pu, cu) if factor_conv else vals
             if _close(np.ma.getdata(m[0])[~msk], np.asarray(want)[~msk]) and np.array_equal(np.ma.getmaskarray(m[0]), msk):
@@ -262,7 +279,11 @@ def case_st(draw):
                 d = draw(st.sampled_from([3, 4, 5, 7]))
                 ops.append(["pull", mode, draw(st.integers(0, 4)), draw(st.integers(0, d)), d])
     chain = draw(st.sampled_from([[], [], [["scale", 1.0]], [["cb"]]]))
-    return {"grid": grid, "pu": pu, "cu": cu, "mask": mask, "chain": chain, "ops": ops}
+    cgrid = None
+    if grid[0] == "grid" and grid[1]["cls"] != "esri" and draw(st.integers(0, 2)) == 0:
+        lens = [len(a) for a in hg.user_axes(grid[1])]
+        cgrid = hg.same_geometry_layout(grid[1], draw(st.sampled_from("CF")), draw(st.booleans()), [draw(st.booleans()) and n > 1 for n in lens])
+    return {"grid": grid, "pu": pu, "cu": cu, "mask": mask, "chain": chain, "ops": ops, "cgrid": cgrid}
 
 
 def parts():
